@@ -136,6 +136,59 @@ var properties = map[string]*Property{
 		OutsideClaim: []string{"WithRemoveCompletedSequences (not part of the statement)", "Key fields (not in the statement's list of definition fields; the code does not copy them)",
 			"request/response types other than the model's flat structs (deep copy of arbitrary types is deep.MustCopy's contract)"},
 	},
+	"C13": {
+		ID: "C13",
+		Runs: []Run{
+			{Dir: "c13", Pkg: "workflow/storage/sqlite", Fn: "VerifC13Create", Needs: []string{"plan compared after Create", "two blocks compared", "attempts compared"}},
+			{Dir: "c13", Pkg: "workflow/storage/sqlite", Fn: "VerifC13Update", Needs: []string{"plan updated", "checks updated", "block updated", "sequence updated", "action updated", "plan compared after updates"}},
+			{Dir: "c13", Pkg: "workflow/storage/sqlite", Fn: "VerifC13Unknown", Needs: []string{"read after delete", "read of a never created id"}},
+		},
+		Assumptions: append([]string{
+			"SQLite (modernc, C compiled to Go) is replaced by a row-store contract driven by the SQL text the real code produces: a mini-parser for exactly the statement forms of the package (anything else, including text the code garbles, is a prepare error), SQLite's storage-class rules for the comparisons that occur (TEXT vs BLOB never equal, quoted word in expression position is a string literal), PRIMARY KEY and NOT NULL constraints, a blocking pool of one connection, snapshot transactions",
+			"sqlitex.Execute/ExecuteTransient/Transaction are Go-source models (prepare, bind by sqlitex's own value mapping, step, ResultFunc per row; commit iff *err == nil)",
+			"go-json-experiment Marshal/Unmarshal are opaque tokens that round-trip a value of the declared type (json v2 decodes into the value an interface already holds); Marshal fails for values holding a channel or function",
+			"clock range: stored instants are the zero time or lie in [1ns, 2^62 ns) after the epoch",
+			"sampled symbolic paths are re-run natively against the real in-memory SQLite (native differential in this evidence file); every counterexample is replayed there too",
+		}, commonAssumptions...),
+		OutsideClaim: []string{"the CosmosDB vault: its only executable semantics here is the package's test fake, which ignores query text and stores through SQLite+JSON itself (DESIGN.md section 7)",
+			"real JSON typing of requests/responses; SQLite's own durability; plans beyond 2 blocks x 2 sequences x 2 actions; more than 2 updates after Create",
+			"symbolic content: every scalar of the plan, blocks, check groups and one designated action (statuses on the first object of each kind, times on the plan and that action); other objects carry fixed pairwise distinct values"},
+	},
+	"C14": {
+		ID: "C14",
+		Runs: []Run{
+			{Dir: "c13,c14", Pkg: "workflow/storage/sqlite", Fn: "VerifC14Atomic", Needs: []string{"failure injected", "create failed", "create succeeded"}},
+			{Dir: "c13,c14", Pkg: "workflow/storage/sqlite", Fn: "VerifC14Twice", Needs: []string{"first plan intact after duplicate create"}},
+			{Dir: "c13,c14", Pkg: "workflow/storage/sqlite", Fn: "VerifC14Delete", Needs: []string{"other plan intact after delete"}},
+		},
+		Assumptions: append([]string{"fault model: at most one failure per Create, injected at any Prepare, Step or json.Marshal call-site instance (a solver boolean per instance), or a request holding a channel at any action position",
+			"crash-mid-Submit clause: every statement of commitPlan/deletePlan runs inside the open transaction (asserted); SQLite's atomic commit is assumed, a process kill itself is not simulated"}, append([]string{
+			"SQLite (modernc, C compiled to Go) is replaced by a row-store contract driven by the SQL text the real code produces: a mini-parser for exactly the statement forms of the package (anything else, including text the code garbles, is a prepare error), SQLite's storage-class rules for the comparisons that occur (TEXT vs BLOB never equal, quoted word in expression position is a string literal), PRIMARY KEY and NOT NULL constraints, a blocking pool of one connection, snapshot transactions",
+			"sqlitex.Execute/ExecuteTransient/Transaction are Go-source models (prepare, bind by sqlitex's own value mapping, step, ResultFunc per row; commit iff *err == nil)",
+			"go-json-experiment Marshal/Unmarshal are opaque tokens that round-trip a value of the declared type (json v2 decodes into the value an interface already holds); Marshal fails for values holding a channel or function",
+			"clock range: stored instants are the zero time or lie in [1ns, 2^62 ns) after the epoch",
+			"sampled symbolic paths are re-run natively against the real in-memory SQLite (native differential in this evidence file); every counterexample is replayed there too",
+		}, commonAssumptions...)...),
+		OutsideClaim: []string{"CosmosDB (see C13)", "real process kill on a file-backed store", "two or more simultaneous failures"},
+	},
+	"C15": {
+		ID: "C15",
+		Runs: []Run{
+			{Dir: "c13,c15", Pkg: "workflow/storage/sqlite", Fn: "VerifC15Exists", Needs: []string{"exists explored"}},
+			{Dir: "c13,c15", Pkg: "workflow/storage/sqlite", Fn: "VerifC15Search", Needs: []string{"search returned several plans", "two statuses searched", "searched by ids or groups"}},
+			{Dir: "c13,c15", Pkg: "workflow/storage/sqlite", Fn: "VerifC15Running", Needs: []string{"running search explored"}},
+			{Dir: "c13,c15", Pkg: "workflow/storage/sqlite", Fn: "VerifC15List", Needs: []string{"limit cut the result", "several plans listed"}},
+		},
+		Assumptions: append([]string{"store content: 1..2 (3) plans with any 64-bit status, symbolic submit time and a group from a pool of two; filters: ByIDs, ByGroupIDs, ByStatus of length 0..2 in every combination with symbolic status values; limit any 64-bit value",
+			"a result stream that is never closed shows as a deadlock of the consuming range loop"}, append([]string{
+			"SQLite (modernc, C compiled to Go) is replaced by a row-store contract driven by the SQL text the real code produces: a mini-parser for exactly the statement forms of the package (anything else, including text the code garbles, is a prepare error), SQLite's storage-class rules for the comparisons that occur (TEXT vs BLOB never equal, quoted word in expression position is a string literal), PRIMARY KEY and NOT NULL constraints, a blocking pool of one connection, snapshot transactions",
+			"sqlitex.Execute/ExecuteTransient/Transaction are Go-source models (prepare, bind by sqlitex's own value mapping, step, ResultFunc per row; commit iff *err == nil)",
+			"go-json-experiment Marshal/Unmarshal are opaque tokens that round-trip a value of the declared type (json v2 decodes into the value an interface already holds); Marshal fails for values holding a channel or function",
+			"clock range: stored instants are the zero time or lie in [1ns, 2^62 ns) after the epoch",
+			"sampled symbolic paths are re-run natively against the real in-memory SQLite (native differential in this evidence file); every counterexample is replayed there too",
+		}, commonAssumptions...)...),
+		OutsideClaim: []string{"CosmosDB (see C13)", "equal submit times (order among ties is unspecified)", "more than 3 (4) plans"},
+	},
 }
 
 type eRun struct {
